@@ -1,19 +1,22 @@
 import DdsModel.Eval
 import DdsProofs.Lru
 import DdsProofs.Closure
+import DdsProofs.History
 /-!
 # C04 — a committed path serves the value of the latest evaluation that kept it
 
-Stage 1: the path table after a commit. For every store state and every path ↦ key map with distinct
-paths (the `OrderedDict` the analysis builds): every committed path resolves to its key (`commit_sets`),
-every other path keeps what it had (`commit_frame`).
+Stage 1: the path table after a commit (`DdsProofs/History.lean`). For every store state and every path ↦ key map with
+distinct paths (the `OrderedDict` the analysis builds): every committed path resolves to its key (`commit_sets`), every other
+path keeps what it had (`commit_frame`).
 
-Stage 2, the value clause (load-free fragment of the model, over a `Universe`, real — non-noop — store):
+Stage 2, the value clause (over a `Universe`, real — non-noop — store; evaluations that do not themselves produce the paths
+they load, see C01):
 * `committed_value`: after a successful, complete evaluation against a sound and closed store, every path `p` the evaluation
-  kept is committed to its signature `k`, a blob sits under `k`, and that blob is the plain value of **every** call —
-  in any version of the code — whose signature is `k`: in particular of the call kept at `p` in this evaluation. Loading
-  the path (in the same process, later, elsewhere on the same store) returns that blob.
-* `committed_value_history`: the same after any history from an empty store.
+  kept is committed to its signature `k`, a blob sits under `k`, and that blob is the right value of `k` (`Right`): the plain
+  value of **every** call — in any version of the code — whose signature is `k`, in particular of the call kept at `p` in this
+  evaluation. Loading the path (in the same process, later, elsewhere on the same store) returns that blob.
+* `committed_is_kept` / `committed_is_kept_history`: after any history from an empty store, every committed path resolves to
+  a blob that is exactly the value plain execution has kept at the path (the value `dds.load` is expected to return).
 It rests on `Closure.lean`: the blob set is closed under kept sub-calls (`Closed`), a successful run covers the tree it
 ran (`cov_fn`), hence every requested path has its blob (`requested_paths_stored`) — also when a parent was served from
 the store and its children were not visited in this evaluation.
@@ -21,43 +24,15 @@ the store and its children were not visited in this evaluation.
 namespace Dds.C04
 open Dds List
 
-theorem foldl_aset_frame (ps : List (String × Sg)) (acc : List (String × Sg)) (p : String)
-    (h : ∀ pk ∈ ps, pk.1 ≠ p) :
-    aget (ps.foldl (fun acc pk => aset acc pk.1 pk.2) acc) p = aget acc p := by
-  induction ps generalizing acc with
-  | nil => rfl
-  | cons a ps ih =>
-    simp only [foldl_cons]
-    rw [ih _ (fun pk hpk => h pk (mem_cons_of_mem _ hpk))]
-    exact aget_aset_ne _ _ _ _ (fun e => h a mem_cons_self e.symm)
-
-theorem foldl_aset_sets (ps : List (String × Sg)) (acc : List (String × Sg)) (p : String) (k : Sg)
-    (hm : (p, k) ∈ ps) (hnd : (ps.map Prod.fst).Nodup) :
-    aget (ps.foldl (fun acc pk => aset acc pk.1 pk.2) acc) p = some k := by
-  induction ps generalizing acc with
-  | nil => cases hm
-  | cons a ps ih =>
-    simp only [map_cons, nodup_cons, mem_map, not_exists, not_and] at hnd
-    simp only [foldl_cons]
-    rcases mem_cons.mp hm with h | h
-    · subst h
-      rw [foldl_aset_frame ps _ p (fun pk hpk e => hnd.1 pk hpk e)]
-      exact aget_aset_eq _ _ _
-    · exact ih _ h hnd.2
-
 /-- every path of the map resolves to its key after the commit -/
 theorem commit_sets (S : PStore) (hn : S.noop = false) (ps : List (String × Sg)) (p : String) (k : Sg)
-    (hm : (p, k) ∈ ps) (hnd : (ps.map Prod.fst).Nodup) : aget (S.sync ps).paths p = some k := by
-  simp only [PStore.sync, hn]
-  exact foldl_aset_sets ps S.paths p k hm hnd
+    (hm : (p, k) ∈ ps) (hnd : (ps.map Prod.fst).Nodup) : aget (S.sync ps).paths p = some k :=
+  Dds.commit_sets S hn ps p k hm hnd
 
 /-- paths that the evaluation did not keep retain their previous content -/
 theorem commit_frame (S : PStore) (ps : List (String × Sg)) (p : String) (h : ∀ pk ∈ ps, pk.1 ≠ p) :
-    aget (S.sync ps).paths p = aget S.paths p := by
-  unfold PStore.sync
-  split
-  · rfl
-  · exact foldl_aset_frame ps S.paths p h
+    aget (S.sync ps).paths p = aget S.paths p :=
+  Dds.commit_frame S ps p h
 
 /-- committing never touches the blobs -/
 theorem commit_blobs (S : PStore) (ps : List (String × Sg)) : (S.sync ps).blobs = S.blobs := by
@@ -89,45 +64,42 @@ theorem evalStep_store_sync {m : Nat} {W : World} {S : PStore} {rq : Request} {f
           | none => simp [hk] at hv
           | some key => exact ⟨st.store.storeBlob key w, by simp, fun h => by rw [storeBlob_noop, hno]; exact h⟩
 
-/-- **the value clause**: a committed path resolves to a blob that is the plain value of the call kept there -/
-theorem committed_value (U : Universe) (m x : Nat) (W : World) (S : PStore) (rq : Request)
-    (hW : U.world W) (hx : W.extVersion = x) (hrq : U.request rq) (hS : Sound U m x S) (hC : Closed U m S) (hn : S.noop = false)
+/-- **the value clause**: a committed path resolves to a blob that is the right value of its signature — the plain value of
+every call with that signature, in particular of the call kept there -/
+theorem committed_value (U : Universe) (m x : Nat) (W : World) (S : PStore) (K : LoadEnv) (rq : Request)
+    (E : EvalCtx U x W) (hrq : U.request rq) (hS : Sound U m x S) (hPK : PathsKept S K) (hC : Closed U m S) (hn : S.noop = false)
     {fn : Fn} {env : Env} {fis : FIS} {paths : List (String × Sg)}
-    (ha : analysisPhase m W S rq = .ok (fn, env, fis, paths)) (hs : Stage.eval ∈ rq.stages)
+    (ha : analysisPhase m W S rq = .ok (fn, env, fis, paths)) (hext : ∀ p ∈ fis.allLoads, External paths p)
+    (hs : Stage.eval ∈ rq.stages)
     (hpc : Stage.pathCommit ∈ rq.stages) {v : RVal} (hv : (evalStep m W S rq).value = .ok (some v))
     (p : String) (k : Sg) (hp : aget paths p = some k) :
     aget (evalStep m W S rq).store.paths p = some k ∧
-    ∃ w, sgGet (evalStep m W S rq).store.blobs k = some w ∧
-      ∀ (W' : World) (g : Fn) (ctx : ArgCtx) (env' : Env) (fuel : Nat) (refs : Refs) (stack : List String) (f : FIS) (r : Refs) (q : PSt),
-        U.world W' → W'.extVersion = x → U.fns g → Chain U m W' g ctx env' →
-        analyse m W' fuel refs stack g ctx = .ok (f, r) → f.retSig = k → (plainFn W' fuel q g env').1 = .ok w := by
+    ∃ w, sgGet (evalStep m W S rq).store.blobs k = some w ∧ Right U m x (evalStep m W S rq).store.blobs k w := by
   obtain ⟨_, _, _, _, P⟩ := analysisPhase_inv ha
   have hnd := allStorePaths_nodup fis [] paths P.hpaths (by simp)
   obtain ⟨S0, e0, n0⟩ := evalStep_store_sync ha hs hpc hv
-  have hsome := requested_paths_stored U m W S rq hW hC hn ha hs hv p k hp
-  have hsound := (memo_correct U m x W S rq hW hx hrq hS).1
+  have hsome := requested_paths_stored U m W S rq E.hW hC hn ha hs hv p k hp
+  have hsound := (Dds.memo_correct U m x W S K rq E hrq hS hPK ha hext).1
   refine ⟨?_, ?_⟩
   · rw [e0]; exact commit_sets S0 (n0 hn) paths p k (aget_mem hp) hnd
   · cases hw : sgGet (evalStep m W S rq).store.blobs k with
     | none => simp [hw] at hsome
-    | some w =>
-      refine ⟨w, rfl, ?_⟩
-      intro W' g ctx env' fuel refs stack f r q hW' hx' hg hch han hsig
-      subst hsig
-      exact served_right hsound hW' hx' hg hch han hw q
+    | some w => exact ⟨w, rfl, hsound k w hw⟩
 
-/-- the value clause after any history from an empty (real) store -/
-theorem committed_value_history (U : Universe) (m x : Nat) (hist : List HStep) (hok : ∀ s ∈ hist, s.ok U x)
-    (W : World) (rq : Request) (hW : U.world W) (hx : W.extVersion = x) (hrq : U.request rq)
-    {fn : Fn} {env : Env} {fis : FIS} {paths : List (String × Sg)}
-    (ha : analysisPhase m W (runHistory m {} hist) rq = .ok (fn, env, fis, paths)) (hs : Stage.eval ∈ rq.stages)
-    (hpc : Stage.pathCommit ∈ rq.stages) {v : RVal} (hv : (evalStep m W (runHistory m {} hist) rq).value = .ok (some v))
-    (p : String) (k : Sg) (hp : aget paths p = some k) :
-    aget (evalStep m W (runHistory m {} hist) rq).store.paths p = some k ∧
-    ∃ w, sgGet (evalStep m W (runHistory m {} hist) rq).store.blobs k = some w := by
-  have h1 := sound_history U m x hist {} (sound_empty U m x false) hok
-  have h2 := closed_history U m hist {} (closed_empty U m false) rfl (fun s hs => (hok s hs).1)
-  obtain ⟨a, w, b, _⟩ := committed_value U m x W _ rq hW hx hrq h1 h2.1 h2.2 ha hs hpc hv p k hp
-  exact ⟨a, w, b⟩
+/-- after one more evaluation, every committed path still resolves to the blob plain execution has kept at the path -/
+theorem committed_is_kept (U : Universe) (m x : Nat) (h : HState) (W : World) (rq : Request)
+    (E : EvalCtx U x W) (hrq : U.request rq) (hext : ExternalLoads m W h.store rq) (hI : HInv U m x h)
+    (p : String) (k : Sg) (hp : aget (histStep m h W rq).store.paths p = some k) :
+    ∃ v, sgGet (histStep m h W rq).store.blobs k = some v ∧ aget (histStep m h W rq).kept p = some v :=
+  (hinv_step U m x h W rq E hrq hext hI).kept p k hp
+
+/-- the value clause after any history from an empty store: a committed path resolves to the value plain execution has
+kept there — what `dds.load` returns, in this process or another -/
+theorem committed_is_kept_history (U : Universe) (m x : Nat) (noop : Bool) (hist : List HStep)
+    (hok : histOK U m x { store := { noop := noop }, kept := [] } hist) (p : String) (k : Sg)
+    (hp : aget (runHist m { store := { noop := noop }, kept := [] } hist).store.paths p = some k) :
+    ∃ v, sgGet (runHist m { store := { noop := noop }, kept := [] } hist).store.blobs k = some v ∧
+      aget (runHist m { store := { noop := noop }, kept := [] } hist).kept p = some v :=
+  (hinv_history U m x hist _ (hinv_empty U m x noop) hok).kept p k hp
 
 end Dds.C04
